@@ -6,7 +6,7 @@ about 10% of the programs (ill-typed operation, unknown function, const violatio
 from hypothesis import strategies as st
 
 STRS = ["", "a", "b", "ab", "x y", "7"]
-CLASS_ATTRS = ["a", "b", "c"]
+CLASS_ATTRS = ["a", "b", "c", "d"]
 
 
 class Env:
@@ -310,9 +310,11 @@ class Env:
             objs = [(n, cl) for cl in self.classes for n in self.visible("obj:" + cl)]
             if objs:
                 o, cl = self.pick(objs)
-                k = self.i(0, 3)
+                k = self.i(0, 5)
                 if k == 3:
                     return [["print", ["m", ["id", o], "both", [self.expr("int", 1)]]]]
+                if k >= 4:
+                    return [["print", ["m", ["id", o], "tag", [self.expr("str", 1)]]]]
                 if k == 0:
                     return [["expr", ["m", ["id", o], "set", [self.expr("int", 2)]]]]
                 if k == 1:
@@ -390,6 +392,9 @@ class Env:
                 ["sum", [], [["expr", ["bin", self.pick(["+", "-", "*"]), ["attr", ["id", "this"], "a"], ["attr", ["id", "this"], "b"]]]]],
                 # stores its parameter in an attribute that has no value before the first call, changes the attribute in place, returns the parameter:
                 # the attribute holds a copy, whatever the argument was (variable, literal, temporary)
+                # the same with strings (results of string operations are temporaries produced by function dispatch)
+                ["tag", ["s"], [["assign", ["attr", ["id", "this"], "d"], "=", ["id", "s"]], ["assign", ["attr", ["id", "this"], "d"], "+=", ["s", "!"]],
+                                ["expr", ["bin", "+", ["id", "s"], ["attr", ["id", "this"], "d"]]]]],
                 ["both", ["v"], [["assign", ["attr", ["id", "this"], "c"], "=", ["id", "v"]], ["assign", ["attr", ["id", "this"], "c"], "+=", ["i", k + 1]],
                                  ["expr", ["bin", "-", ["attr", ["id", "this"], "c"], ["id", "v"]]]]],
             ]
